@@ -75,8 +75,8 @@ seeded changes and which check catches which in §11.
   | K1 | `core::ch_width` | `ch_width(c) <= c.len_utf8()` for all 1,112,064 scalar values (Kani, loop-free) | C10, C05, C04 |
 
 * **Genuine defects found and repaired** (five `fix:` commits in `/repo`, §5): F1 (C02), F2 (C08), F5 (C20/C04) were
-  convicted by Verus obligations on the pinned text *and* by BEC; F3 (C11) and F4 (C18) by BEC. Four further findings
-  (KF1–KF4) are recorded as open known findings with reasons (§5).
+  convicted by Verus obligations on the pinned text *and* by BEC; F3 (C11) and F4 (C18) by BEC. Five further findings
+  (KF1–KF5) are recorded as open known findings with reasons (§5).
 * **What stays bounded.** Optimality proper in C03 (needs real arithmetic and total monotonicity), the relational
   statements (C09 independence, C13 end to end, C14, the round trip of C15/C16, agreement of `fill_inplace` with `wrap`,
   C08's second sentence), the real
@@ -93,7 +93,7 @@ w("""## 2. Architecture
   check                  ./check <Cxx> [--tier quick|thorough] [--seed N] | --replay <file>     (exit 0 / 1 VIOLATION / 2 undecided)
   setup.sh               builds bec in both feature flavours, warms Verus up
   MANIFEST.json          generated by tools/mkmanifest.py from tools/props.py
-  known_findings.json    fixed: F1–F5 (five `fix:` commits in /repo); open: KF1, KF2, KF3, KF4
+  known_findings.json    fixed: F1–F5 (five `fix:` commits in /repo); open: KF1–KF5
   contracts/u*.vrs       side-cars, one per unit (table in §0)
   contracts/prelude/     shared pieces (`//@include`): Options / LineEnding extracted from /repo, ANSI spec (`skip_len`, `dw`, `strip`),
                          UTF-8 position lemmas (`fresh.vrs`), ASCII-boundary lemmas, `lines()` byte model
@@ -263,6 +263,13 @@ still a VIOLATION):
   "dedent is idempotent" fails on such input, although the margin rule (which U9 proves) holds on both applications. Found by the
   sampled long-string pass (the exhaustive alphabet had `"\\r\\n"` but no lone `"\\r"`). Not repaired: dropping the stray CR or
   preserving the original line endings both change documented behaviour.
+* **KF5 (C05).** An escape sequence that contains a space (an OSC window title or hyperlink text, a CSI with an intermediate
+  space) under the ASCII-space separator: `wrap("\\x1b]0;a b\\x07cd", Options::new(3).word_separator(WordSeparator::AsciiSpace))`
+  `== ["\\x1b]0;a", "b\\x07cd"]` although the paragraph is 2 columns wide — the separator splits at the space inside the sequence
+  and the second piece is then measured as plain text (3 columns), so a paragraph that fits is not returned as one line. Not
+  repaired: the ASCII separator is documented to split at every space; teaching it about escape sequences is a feature, not a
+  minimal repair (the Unicode separator works on the stripped text and is not affected). The same input class was first
+  pointed out by a sub-agent (seed w4_C17_A).
 
 ## 6. Applicability statement
 
@@ -321,6 +328,8 @@ w("""## 9. Departures from the original plan
 | C02 BEC | indent wider than the width + zero-width rest with a break opportunity | **code violates the letter of C02** | known finding KF1 (§5), class-tagged |
 | C15/C16 BEC | round trip fails with `break_words` on and an indent-only first line | **code violates C15/C16** | repair tried, upstream test pins the behaviour, reverted; known findings KF2/KF3 (§5) |
 | C18 BEC (new sampled pass) | `dedent` not idempotent on `"a\\r\\r\\n b"` | **code violates the corollary stated in C18** | known finding KF4 (§5), class-tagged |
+| C02 BEC (broad alphabet + OSC title with a space) | a line `indent ++ "\\r\\x1b]0;a"` too wide although it holds "more than one non-zero-width character" | check wrong: it counted the characters hidden inside the (cut-off) sequence as visible; the part after the indent has one visible character, C02's exception | visible characters are counted the way C10 defines the display width, also for sequences that are cut short |
+| C05 BEC (same alphabet) | a fitting paragraph with an OSC title is returned as two lines under the ASCII separator | **code violates the letter of C05** | known finding KF5 (§5), class-tagged |
 | Verus → property mapping | a failed `requires` of a prelude callee was attributed to C04 only | machinery wrong | tags are read on any line of the failing span; `requires` lines carry tags |
 | probe | a `//@probe` inside `({ let …;` produced a syntax error that was reported as vacuity | machinery wrong | probe compile errors are distinguished from a verifying probe |
 | U1 / U11 | rlimit under some SMT seeds (would have been *undecided*, not an alarm) | proof brittle | opaque state predicate + step lemmas; lemma split |
